@@ -49,7 +49,7 @@ CLAIMED = {
     "C14": dict(
         category="exploration",
         text="The interpreter is the nondeterminism source: fresh interpreters under different PYTHONHASHSEED values "
-             "(8 quick / 48 thorough incl. 'random' on the whole workload, 16 / 80 more on its light part) each compute "
+             "(12 quick / 48 thorough incl. 'random' on the whole workload, 16 / 80 more on its light part) each compute "
              "every output kind for the corpus, the package's other command-line tools and generated structures twice "
              "in-process, each interpreter visiting its items in its own seeded order; all digests of one (input, "
              "output kind) must agree. Differences that need what ran before in the process are replayed as whole "
